@@ -268,16 +268,26 @@ def main():
         for row in rows:
             size, start, stop = row["size"], row["start"], row["stop"]
             blocks_code = []
-            for rank in range(size):
-                (rng, dc) = with_fake(
-                    size, rank,
-                    lambda dc: par._calculate_ranges(dc, start, stop),
-                    keep=True)
-                blocks_code.append(list(rng))
-                if [list(x) for x in dc.ranges][rank] != list(rng):
-                    ck.violation("ranges-table-consistent", "ranges-attr",
-                                 dict(row=row, rank=rank,
-                                      ranges=dc.ranges, rng=rng), row)
+            try:
+                for rank in range(size):
+                    (rng, dc) = with_fake(
+                        size, rank,
+                        lambda dc: par._calculate_ranges(dc, start, stop),
+                        keep=True)
+                    blocks_code.append(list(rng))
+                    if [list(x) for x in dc.ranges][rank] != list(rng):
+                        ck.violation("ranges-table-consistent",
+                                     "ranges-attr",
+                                     dict(row=row, rank=rank,
+                                          ranges=dc.ranges, rng=rng), row)
+            except MachineryFailure:
+                raise
+            except Exception as ex:
+                # (no range handed to some rank, a range that is not a pair)
+                ck.violation("partition", "no-range:%s" % type(ex).__name__,
+                             dict(row=row, rank=len(blocks_code),
+                                  exception=repr(ex)[:200]), row)
+                continue
             nontriv = (stop - start) > 0 and size > 1
             ck.case("partition", (size, start, stop), nontrivial=nontriv,
                     sample=dict(size=size, start=start, stop=stop,
